@@ -37,7 +37,9 @@ FreeStep(ev, newObjs, e, o) ==
 
 Init == l = 1 /\ objs = NoObj /\ exp = <<>> /\ obs = <<>>
 
-TrReset == IsEv("Reset") /\ Step(NoObj, <<>>, <<>>)
+\* reset clears the (thread-)private objects; objects with id >= 1000 are the shared read-only
+\* objects of a multi-threaded run (C16) and survive
+TrReset == IsEv("Reset") /\ Step([i \in {j \in DOMAIN objs : j >= 1000} |-> objs[i]], <<>>, <<>>)
 
 -----------------------------------------------------------------------------
 (* C08: public permutation interface                                       *)
@@ -473,7 +475,9 @@ TrMkOp == IsEv("mk.op") /\ LET ev == T[l]  nm == ev.name IN
     [] nm = "extract" -> Step(objs, <<MwVal(ev.obj), 1>>, <<ev.out, ev.guard>>)
     [] nm = "randomize" -> Step(objs, <<MwVal(ev.obj), 1, TRUE>>, <<ev.out, ev.guard, RefreshOK(ev, ev.raw_before, ev.raw, ev.shares)>>)
     [] nm = "free" -> FreeStep(ev, Del(ev.obj), <<>>, <<>>)
-MaskedNext == TrMwOp \/ TrMsOp \/ TrMkOp
+TrMkAead == IsEv("mk.aead") /\ LET ev == T[l]  v == CASE ev.scheme = "aead128" -> "128" [] ev.scheme = "aead128a" -> "128a" [] ev.scheme = "aead80pq" -> "80pq" IN
+  Step(objs, <<AeadEnc(v, MwVal(ev.obj), ev.n, ev.ad, ev.m), Len(ev.m) + 16, 1>>, <<ev.out, ev.clen, ev.guard>>)
+MaskedNext == TrMwOp \/ TrMsOp \/ TrMkOp \/ TrMkAead
 
 -----------------------------------------------------------------------------
 (* C19: the command-line tools.  Events are whole scenarios executed on    *)
